@@ -262,7 +262,7 @@ def run_case(case):
 def gen_cases(tier, seed):
     rng = random.Random(seed * 131 + 7)
     cases = [{"kind": "func", "seed": seed * 1000 + i, "tables": 40 if tier == "quick" else 400} for i in range(16)]
-    ntab = 60 if tier == "quick" else 1200
+    ntab = 60 if tier == "quick" else 4000
     targets_r = ["/pub", "/pub/in", "/pub/in/deep", "/priv", "/priv/x", "/"]
     for i in range(ntab):
         table = rand_table(rng) if i >= 6 else [
